@@ -18,7 +18,15 @@ def run(chk, prog, tier):
     TR.t3_siblings(chk, tab, rule="CC", parts=("cc",))
     n = SUCC.succ_rule(chk, tab, prog, only={("type", "CONTROL_FLOW")})
     from valib import rel8 as REL8
-    REL8.rel8_rule(chk, prog)
+    # relative-branch rows whose successor (the row `key += is_short` selects) has no imm8 marker
+    noib = []
+    for r in tab.rows[3:-1]:
+        hits, _ = TR.match_row(tab, r)
+        if hits and any(F["enc"] in ("D", "S") for F in hits) and "n" in tab.fmts_of(r) and r.instr_name:
+            nxt = tab.rows[r.idx + 1]
+            if nxt.f["name"] == r.f["name"] and not tab.dec[nxt.idx].get("ib"):
+                noib.append(tab.mnemonic(r))
+    REL8.rel8_rule(chk, prog, short_rows_without_ib=noib)
     chk.floor("branch rows", sum(1 for r in tab.rows[3:-1] if branch(r)), 43)
     chk.floor("branch rows matched against the reference", matched, 43)
     chk.floor("successor obligations", n, 19)
